@@ -382,11 +382,13 @@ def _fab_line_rule(fi, offsets_name):
                     for m in blk2:
                         if isinstance(m, ast.Assign) and norm(m.targets[0]) == line and norm(m.value).endswith(".readline()"):
                             src = m
-            if src is None or len(wr.args) != 1 or norm(wr.args[0]) not in (f"' '.join({v}) + '\\n'",):
+            forms = {norm(ast.parse(t, mode="eval").body) for t in
+                     ("' '.join(%s) + '\\n'" % v, "f\"{' '.join(%s)}\\n\"" % v)}
+            if src is None or len(wr.args) != 1 or norm(wr.args[0]) not in forms:
                 continue
             got.append((n.lineno, norm(n.value.args[0])))
     got = [t for _, t in sorted(got)]
-    return got == [f"str({offsets_name}[0])", f"str({loopvars[0]})"]
+    return got == ["f'{%s[0]}'" % offsets_name, "f'{%s}'" % loopvars[0]]
 
 
 def _blocks(node):
